@@ -7,7 +7,7 @@ From Fibre Require Import Common.Base Common.Conc Chan.TicketK3 Proofs.TicketK3B
 (* every SET (published) and undrained ticket lies in the window [pos, pos + cap) *)
 Theorem C03_k3ticket_window :
   forall cap cc n kk np pp cp sch t v, 0 < cc -> 0 < n ->
-  let s := fst (run (sys cap cc n kk np pp cp) (init np pp cp) sch) in
+  let s := fst (Conc.run (sys cap cc n kk np pp cp) (init np pp cp) sch) in
   tk s t = TSet v -> hpos s <= t -> t < hpos s + cap.
 Proof.
   intros cap cc n kk np pp cp sch t v Hcc Hn s. apply (capacity_window cap cc n kk np Hcc Hn pp cp). exists sch. reflexivity.
@@ -16,7 +16,7 @@ Qed.
 (* never more than cap payloads are buffered (SET and not yet drained), in every state of every schedule *)
 Theorem C03_k3ticket_occupancy :
   forall cap cc n kk np pp cp sch, 0 < cc -> 0 < n ->
-  let s := fst (run (sys cap cc n kk np pp cp) (init np pp cp) sch) in
+  let s := fst (Conc.run (sys cap cc n kk np pp cp) (init np pp cp) sch) in
   (length (buffered s) <= N.to_nat cap)%nat.
 Proof.
   intros cap cc n kk np pp cp sch Hcc Hn s. apply (buffered_le_cap cap cc n kk np Hcc Hn pp cp). exists sch. reflexivity.
@@ -26,7 +26,7 @@ Qed.
    still owned (claimed, not yet written) *)
 Theorem C03_k3ticket_counters :
   forall cap cc n kk np pp cp sch, 0 < cc -> 0 < n ->
-  let s := fst (run (sys cap cc n kk np pp cp) (init np pp cp) sch) in
+  let s := fst (Conc.run (sys cap cc n kk np pp cp) (init np pp cp) sch) in
   progress s <= hpos s /\ drained s <= hpos s /\ hpos s <= gtail s /\
   hpos s = hcid s * cc + hidx s /\ retired s = hcid s /\
   (forall t th, tk s t = TOwn th -> hpos s <= t).
